@@ -567,6 +567,7 @@ def check(facts, rep, tier, cfg):
         k8 = v8["key"].split("/", 1)[1]
         if "Push" in k8:
             rep.bad("C03.R8", k8, v8["where"], v8["msg"])
+    import_constructor_rule(facts, rep, "C03.S9", ['new_acknowledge', 'new_connect'])
     rep.rule("C03.S7", "who-may: the functions that touch the critical resources behind this property are those of the reference tree (flow table, closed flag, per-stream / datagram / outbound queues, last-pong timestamp, client id maps, shared TLS identity)")
     import whomay
     whomay.check(facts, rep, "C03.S7", "C03")
